@@ -196,7 +196,10 @@ def descend (rw : E → Prec → Option E) (rec : E → Prec → Option E) (e1 :
       | none => none
       | some x1 =>
         let pi := x1.prec
-        if p ≤ pi || (pi == opCoalesce && p == opBitOr) then rec x1 p
+        -- in the position of a member/call object (`p` above `OpLHS`) the Go code optimizes the conditional without the
+        -- optional-chaining rewrite: that variant is outside the model
+        if opLHS < p && x1.isOpt then none
+        else if p ≤ pi || (pi == opCoalesce && p == opBitOr) then rec x1 p
         else (rec x1 opExpr).map group
     | call f args => descLink rec (call f args) p
     | opt a e =>
